@@ -10,6 +10,7 @@ import ScsiVerif.Model.Exec
 import ScsiVerif.Model.Handle
 import ScsiVerif.Model.Enum
 import ScsiVerif.Model.InitDevice
+import ScsiVerif.Model.Isolation
 import ScsiVerif.Std.Sense
 import ScsiVerif.Gen.Commands
 import ScsiVerif.Gen.Opcodes
@@ -223,6 +224,18 @@ def cmdOp (toks : List String) : Option String :=
     let sc : List Char → String := fun l => showBytes (l.map Char.toNat)
     pure ("ok " ++ (match r with | .refused => "refused" | .scsiDevice p => "scsi:" ++ sc p | .iscsiDevice u => "iscsi:" ++ sc u) ++ " " ++
       ",".intercalate (eff.map (fun | .openFile p m => "open:" ++ sc p ++ ":" ++ m | .connect u n => "connect:" ++ sc u ++ ":" ++ sc n)))
+  -- isorun <c:Cls:len | b:Cls | d:Cls , …> : what each build/decode works with (layout owner / length)
+  | ["isorun", acts] => do
+    let as ← (splitOn acts ",").mapM (fun a => match a.splitOn ":" with
+      | ["c", c, n] => n.toNat?.map (fun n => Iso.Act.ctor c n)
+      | ["b", c] => some (.build c)
+      | ["d", c] => some (.decode c)
+      | _ => none)
+    let obs := Iso.run ⟨[], none⟩ as
+    pure ("ok " ++ ",".intercalate (obs.map (fun
+      | none => "-"
+      | some (c, some n) => c ++ "/" ++ toString n
+      | some (c, none) => c)))
   | ["t10op", name] => pure (match Std.lookup Std.t10Opcodes name with | some v => "ok " ++ toString v | none => "none")
   | ["t10sa", name] => pure (match Std.lookup Std.t10ServiceActions name with | some v => "ok " ++ toString v | none => "none")
   | ["samstatus", name] => pure (match Std.lookup Std.samStatus name with | some v => "ok " ++ toString v | none => "none")
